@@ -225,6 +225,8 @@ def load_one(lit: LineIterator, norm_threshold: float = 1e-4) -> dict:
         raise LoadError("Orbital basis not found.", lit)
     if coeffsa is None:
         raise LoadError("Alpha orbitals not found.", lit)
+    if atcharges is not None and len(atcharges["mulliken"]) != len(atnums):
+        raise LoadError("The number of atomic charges differs from the number of atoms.", lit)
     if occsa is None:
         raise LoadError("Alpha occupation numbers not found.", lit)
 
